@@ -34,8 +34,8 @@ void scalePositions(const vector<double> &starts, const vector<double> &ends,
         scaled_starts.resize(count);
     if (scaled_ends.size() != count)
         scaled_ends.resize(count);
-    double scaling= 1.0;
     for (size_t i = 0; i < count; ++i) {
+        double scaling = 1.0;
         if (i < units.size() && units[i] != "none" && dim_unit != "none") {
             try {
                 scaling = util::getSIScaling(units[i], dim_unit);
